@@ -32,3 +32,9 @@ claim("C17",
 claim("C06",
  "Partial. Proved with an ownership ghost ($pooled = byte arrays owned by a sync.Pool): the slice returned by encoder.Encode and by ast.Node.MarshalJSON (non-raw nodes) is never owned by a pool afterwards and is new or handed-over memory, on both sides of the pool size limit; encodeFinishWithPool pools only the replaced buffer; NewBytes/FreeBytes/newBuffer/freeBuffer/api.freeBytes keep the pool well-formed; the text decoded by StreamDecoder.Decode never aliases the read buffer. Since later calls obtain memory only from a pool or fresh allocation, bytes not owned by a pool cannot be changed by later calls.",
  "sync.Pool semantics (Get returns exclusively owned objects; pool discipline len==0 as rely/guarantee) are assumed; writes of generated encoder code (check_size/more_space), EncodeInto's spare-capacity frame, CopyString/Unmarshal copies are not reached; alg.HtmlEscape and utf8.CorrectWith are assumed w.r.t. ownership.")
+claim("C15",
+ "Partial. Proved for the chunked child storage linkedNodes against a sequence view (element i = head[i] or tail[i/16-1][i%16]): At returns the address of element i or nil exactly out of range; Set/Push/Pop have whole-view postconditions (element i becomes v, every other element below size unchanged, size as specified) and preserve the representation invariant (chunks allocated below size, pairwise distinct, spare tail capacity nil); growTailLength keeps existing chunks; MoveOne is remove-then-insert on the sequence; ToSlice copies the sequence in order.",
+ "linkedPairs (hash index, needs the map model), the Node mutators in node.go and the lazy-loading transitions are not yet under contract; Set is specified for i <= size only (larger i leaves unallocated chunks below size: see DESIGN section 8).")
+claim("C14",
+ "Narrow. Proved: linkedNodes.At/ToSlice return exactly the i-th stored element / the stored sequence in order (the chunk arithmetic behind Index, Array and Interface views).",
+ "Native get_by_path, the lazy skip logic (skipKey/skipIndex), linkedPairs.Get with its hash index and the traverser are not yet under contract.")
